@@ -199,17 +199,174 @@ pub fn sexp<'a>() -> impl Parser<'a, &'a str, Val, ExS<'a>> + Clone {
     node.padded().then_ignore(end())
 }
 
-pub const ZOO_NAMES: [&str; 8] = ["memo", "pratt", "rx", "valid", "rx2", "list", "arith", "sexp"];
-/// The first ZOO_SYNC grammars are Send + Sync.
-pub const ZOO_SYNC: usize = 5;
+// ---------------------------------------------------------------------------------------------
+// Other error types. Every engine is typed over `Rich`; the zero-sized `EmptyErr` (`extra::Default`),
+// `Cheap` and `Simple` take other paths inside chumsky (e.g. the zero-sized-error fast paths of
+// `add_alt`). A grammar over another error type is embedded as an *extension parser* that runs it as
+// a separate, complete parse of the remaining input — `parse_with_state` in emit mode,
+// `check_with_state` in check mode — and reports its errors through one `Rich::custom`. To the
+// engines it is just another parser value that can be cloned, boxed, cached and shared.
+
+use chumsky::extension::v1::{Ext, ExtParser};
+use chumsky::input::InputRef;
+
+pub struct Inner<P, E>(pub P, pub std::marker::PhantomData<fn() -> E>);
+
+impl<P: Clone, E> Clone for Inner<P, E> {
+    fn clone(&self) -> Self {
+        Inner(self.0.clone(), std::marker::PhantomData)
+    }
+}
+
+pub trait ShowErr {
+    fn show(&self) -> String;
+}
+impl ShowErr for EmptyErr {
+    fn show(&self) -> String {
+        "e".into()
+    }
+}
+impl ShowErr for Cheap<SimpleSpan<usize>> {
+    fn show(&self) -> String {
+        format!("c{}..{}", self.span().start, self.span().end)
+    }
+}
+impl<'a> ShowErr for Simple<'a, char, SimpleSpan<usize>> {
+    fn show(&self) -> String {
+        format!("s{}..{}:{:?}", self.span().start, self.span().end, self.found())
+    }
+}
+
+impl<'a, P, E> ExtParser<'a, &'a str, Val, ExS<'a>> for Inner<P, E>
+where
+    E: chumsky::error::Error<'a, &'a str> + ShowErr + 'a,
+    P: Parser<'a, &'a str, Val, extra::Full<E, Insp, ()>>,
+{
+    fn parse(&self, inp: &mut InputRef<'a, '_, &'a str, ExS<'a>>) -> Result<Val, Rich<'a, char, SimpleSpan<usize>>> {
+        let c = inp.cursor();
+        let rest: &'a str = inp.slice_from(&c..);
+        while inp.next_maybe().is_some() {}
+        let mut st = Insp::default();
+        let (out, errs) = self.0.parse_with_state(rest, &mut st).into_output_errors();
+        match (out, errs.is_empty()) {
+            (Some(v), true) => Ok(Val::St(st.n, st.h, Box::new(v))),
+            (out, _) => Err(Rich::custom(inp.span_since(&c), format!("inner out={} errs=[{}]", out.is_some(), errs.iter().map(|e| e.show()).collect::<Vec<_>>().join(",")))),
+        }
+    }
+    fn check(&self, inp: &mut InputRef<'a, '_, &'a str, ExS<'a>>) -> Result<(), Rich<'a, char, SimpleSpan<usize>>> {
+        let c = inp.cursor();
+        let rest: &'a str = inp.slice_from(&c..);
+        while inp.next_maybe().is_some() {}
+        let mut st = Insp::default();
+        let (out, errs) = (&self.0).check_with_state(rest, &mut st).into_output_errors();
+        match (out, errs.is_empty()) {
+            (Some(()), true) => Ok(()),
+            (out, _) => Err(Rich::custom(inp.span_since(&c), format!("inner out={} errs=[{}]", out.is_some(), errs.iter().map(|e| e.show()).collect::<Vec<_>>().join(",")))),
+        }
+    }
+}
+
+macro_rules! other_error_zoo {
+    ($m:ident, $E:ty, $at:expr) => {
+        pub mod $m {
+            use super::*;
+            type E<'a> = $E;
+            type X<'a> = extra::Full<E<'a>, Insp, ()>;
+            type M<'a, 'b> = MapExtra<'a, 'b, &'a str, X<'a>>;
+
+            /// validation that emits + skip-recovery inside a repetition (Sync-capable)
+            pub fn valid<'a>() -> impl Parser<'a, &'a str, Val, ExS<'a>> + Clone + Send + Sync {
+                let byte = text::int::<&'a str, X<'a>>(10).validate(|s: &'a str, e: &mut M<'a, '_>, em| {
+                    hook::cb();
+                    let n = num_of(s);
+                    if n > 255 {
+                        let at: fn(SimpleSpan<usize>) -> E<'a> = $at;
+                        em.emit(at(e.span()));
+                    }
+                    Val::Num(n)
+                });
+                let item = byte.recover_with(skip_then_retry_until(any().ignored(), one_of(" ;").ignored()));
+                let g = item.separated_by(just(' ')).at_least(1).collect::<Vec<Val>>().map(Val::Seq).then_ignore(just(';'));
+                Ext(Inner::<_, E<'a>>(g, std::marker::PhantomData))
+            }
+
+            /// address-keyed memoized siblings under a choice whose alternatives fail at different depths (Sync-capable)
+            pub fn memo<'a>() -> impl Parser<'a, &'a str, Val, ExS<'a>> + Clone + Send + Sync {
+                let a = just::<_, &'a str, X<'a>>('a')
+                    .repeated()
+                    .at_least(1)
+                    .count()
+                    .map(|n| {
+                        hook::cb();
+                        Val::Num(n as u64)
+                    })
+                    .memoized();
+                let b = one_of("bc")
+                    .repeated()
+                    .at_least(1)
+                    .count()
+                    .map(|n| {
+                        hook::cb();
+                        Val::Num(100 + n as u64)
+                    })
+                    .memoized();
+                let ab = a.clone().then(b.clone()).map(|(x, y)| Val::Seq(vec![x, y])).memoized();
+                let g = choice((
+                    ab.clone().then_ignore(just('x')).map(|v| Val::Seq(vec![Val::Tok(0), v])),
+                    ab.then_ignore(just('y')).map(|v| Val::Seq(vec![Val::Tok(1), v])),
+                    a.clone().then_ignore(just('x')).map(|v| Val::Seq(vec![Val::Tok(2), v])),
+                    a.then_ignore(just('y')).map(|v| Val::Seq(vec![Val::Tok(3), v])),
+                    b.then_ignore(just('z')).map(|v| Val::Seq(vec![Val::Tok(4), v])),
+                ));
+                Ext(Inner::<_, E<'a>>(g, std::marker::PhantomData))
+            }
+
+            /// declare/define recursion, memoized atom, nested-delimiter recovery (not Sync)
+            pub fn sexp<'a>() -> impl Parser<'a, &'a str, Val, ExS<'a>> + Clone {
+                let mut node = Recursive::declare();
+                let atom = text::ascii::ident::<&'a str, X<'a>>()
+                    .map(|s: &'a str| {
+                        hook::cb();
+                        Val::Num(s.len() as u64)
+                    })
+                    .memoized();
+                let lst = node
+                    .clone()
+                    .padded()
+                    .repeated()
+                    .collect::<Vec<Val>>()
+                    .map(Val::Seq)
+                    .delimited_by(just('('), just(')'))
+                    .recover_with(via_parser(nested_delimiters('(', ')', [('[', ']')], |sp: SimpleSpan<usize>| {
+                        hook::cb();
+                        Val::Span(sp.norm(), Box::new(Val::Fallback(8)))
+                    })));
+                node.define(atom.or(lst));
+                Ext(Inner::<_, E<'a>>(node.padded(), std::marker::PhantomData))
+            }
+        }
+    };
+}
+
+other_error_zoo!(empty_err, EmptyErr, |_s| EmptyErr::default());
+other_error_zoo!(cheap_err, Cheap<SimpleSpan<usize>>, |s| Cheap::new(s));
+other_error_zoo!(simple_err, Simple<'a, char, SimpleSpan<usize>>, |s| Simple::new(None, s));
+
+pub const ZOO_NAMES: [&str; 17] = [
+    "memo", "pratt", "rx", "valid", "rx2", "list", "arith", "sexp",
+    "valid/EmptyErr", "memo/EmptyErr", "valid/Cheap", "memo/Cheap", "valid/Simple", "memo/Simple",
+    "sexp/EmptyErr", "sexp/Cheap", "sexp/Simple",
+];
+/// The zoo grammars that are Send + Sync.
+pub const ZOO_SYNC_IDS: [usize; 11] = [0, 1, 2, 3, 4, 8, 9, 10, 11, 12, 13];
 
 /// Input pools: accepted, rejected, recovered and memo-heavy strings for each zoo grammar.
 pub fn pool(z: usize) -> &'static [&'static str] {
     match z {
-        0 => &["aabx", "aaby", "aax", "aay", "bcz", "aabz", "aaaa", "bcbcx", "ay", "", "abbbby"],
+        0 | 9 | 11 | 13 => &["aabx", "aaby", "aax", "aay", "bcz", "aabz", "aaaa", "bcbcx", "ay", "", "abbbby"],
         1 => &["1+2*3", "-1^2^3!", "1 + ", "2 * (3", "4!!+5", "1+2+3+4", "^", "7", "12*34", "1*2+3"],
         2 => &["abc 12 x9", "12.5 foo", "abc !", "a1 b2 c3 d4", "", "9.", "zzz", "ab12 cd", "abc 1 d", "a 1.5 zz"],
-        3 => &["1 2 3;", "1 300 2;", "1 x 2;", "999 999;", "1 2", ";", "12 @@ 7;", "1 300 2", "999 x"],
+        3 | 8 | 10 | 12 => &["1 2 3;", "1 300 2;", "1 x 2;", "999 999;", "1 2", ";", "12 @@ 7;", "1 300 2", "999 x"],
         4 => &["12 Abc + 7", "Foo-Bar", "abc", "1 2 3", "", "X * 99 / Yz", "12.5", "12 Ab +", "1 Abc -", "123 A /"],
         5 => &["[a, bc, d]", "[a, (b, c]", "[a,, b]", " [ x1 , y2 , ] ", "[", "[a b]", "[]", "[[a], b]"],
         6 => &["1+2*3", "(1+2)*3", "((((4))))", "1+(2*", "2*/3", "1 + 2 - 3 * 4 / 5", "()", "((1)"],
